@@ -138,10 +138,11 @@ Definition sp_exec (sc : scripts) (t : spec) (e : entry) : spec :=
   (* C08: only a runnable coroutine runs, once per frame, and those that
      stayed runnable come in their previous order *)
   let t := flag08 (is_act t g && negb (memz g (t_ran t)) && head_ok g (t_order t)) t in
-  (* C09: it carries on from where it stopped *)
-  let t := flag09 (k =? zget (t_pc t) g) t in
+  (* C09: its code runs only while it is ACTIVE (never after kill or return,
+     unless started again), and it carries on from where it stopped *)
+  let t := flag09 (is_act t g && (k =? zget (t_pc t) g)) t in
   match nth_error (script_of sc g) (Z.to_nat k) with
-  | None => flag09 false t
+  | None => flag08 false (flag09 false t)      (* no such step: cannot be judged *)
   | Some (acts, res) =>
       let t := flag09 (Nat.eqb (length outs) (length acts)) t in
       sp_result (sp_actions (enter t g k) acts outs) g res
@@ -233,12 +234,14 @@ Definition k9 (sc : scripts) : bool :=
 (* ---- C08 ------------------------------------------------------------------ *)
 Definition C08_case := case.
 Definition holds08_b (c : case) : bool := ok08 (final c).
+Definition holds08 (c : case) : Prop := holds08_b c = true.
 Definition known08_b (c : case) : bool := false.
 
 (* ---- C09 ------------------------------------------------------------------ *)
 Definition C09_case := case.
 Definition holds09_b (c : case) : bool :=
   ok09 (final c) && subz (c_alive c) (sp_held (final c)).
+Definition holds09 (c : case) : Prop := holds09_b c = true.
 Definition known09_b (c : case) : bool := k9 (c_scripts c).
 
 Definition bit (b : bool) (n : nat) : nat := if b then n else 0%nat.
